@@ -353,7 +353,7 @@ func rulePanicInventory(r *Run) {
 		bad := false
 		n := 0
 		for _, c := range callsIn(hn) {
-			if callee := staticCallee(c); callee != nil && callee.Name() == "Min" {
+			if callee := staticCallee(c); callee != nil && cname(callee) == "Min" {
 				n++
 				// facts: limit == 0 false (early return), limit < 0 false, Len() < limit false  => Len() >= limit > 0
 				var zero, negF, room bool
@@ -372,7 +372,7 @@ func rulePanicInventory(r *Run) {
 							}
 						}
 					}
-					if lc, ok := b.X.(*ssa.Call); ok && staticCallee(lc) != nil && staticCallee(lc).Name() == "Len" && b.Op == token.LSS && !f.Truth {
+					if lc, ok := b.X.(*ssa.Call); ok && staticCallee(lc) != nil && cname(staticCallee(lc)) == "Len" && b.Op == token.LSS && !f.Truth {
 						room = true
 					}
 				}
